@@ -668,3 +668,48 @@ func ptyPeerMain(t *testing.T) {
 
 	os.Exit(0)
 }
+
+// runBig enumerates, for every flavour and direction, one single 64 kB write (larger than every
+// buffer on the way: pty, socket, ssh channel window chunking) at a small and a large read size.
+func runBig(t *testing.T) {
+	if os.Getenv("VERIF_CHILD_CASE") != "" || os.Getenv("VERIF_REPLAY") != "" {
+		t.Skip()
+	}
+
+	shard, shards := 0, 1
+	fmt.Sscan(os.Getenv("VERIF_SHARD"), &shard)
+	fmt.Sscan(os.Getenv("VERIF_SHARDS"), &shards)
+
+	if shards <= 0 {
+		shards = 1
+	}
+
+	idx, ran := 0, 0
+
+	for _, fl := range flavours {
+		for _, dir := range []string{"c2p", "p2c"} {
+			for _, rs := range []int{64, 8192} {
+				if fl == "system-ssh-netconf" && dir == "c2p" {
+					continue
+				}
+
+				idx++
+				if idx%shards != shard {
+					continue
+				}
+
+				c := PipeCase{Flavour: fl, ReadSize: rs, CloseBy: []string{"client", "peer"}[idx%2],
+					Steps: []Step{{Dir: dir, N: 65536, Seed: 7000 + idx}, {Dir: "p2c", N: 3, Seed: 1 + idx}}}
+				v := pipeProp.Exec(t, c)
+				ran++
+				ev.RecordExternal("big", c, v)
+
+				if !v.OK {
+					ev.FailExternal(t, "big", c, v)
+				}
+			}
+		}
+	}
+
+	fmt.Printf("ENUM-OK big-cases=%d\n", ran)
+}
